@@ -50,11 +50,28 @@ CLAIMS = {
              'covering in particular an arrival between the dequeuer exit and its bookkeeping update (two lock regions of the same lock, all interleavings); the final per-item state of the real objects is compared with the model on every quiescent run.',
         ref='6 C19', note=ITEM_NOTE,
         tech='Coq proof (counter / generation invariants over an LTS) + scheduler-driven correspondence incl. end-state comparison + oracle'),
+    'C10': dict(
+        text='Coq theorems over the connection-level LTS Model/Shell.v (any interleaving of starter, reader, writer, workers, application and adapter threads; any chunking incl. all requests in one chunk; any adapter outcome): '
+             'c10_gate (monitor gate_ok: initialize begins at most once and before any other adapter call, has returned before any other begins; Data: set_listener right after a successful initialize and before any other call), '
+             'c10_nothing_before_init (invariant: while the init request is expected nothing was submitted to the pool and no adapter method was touched), c10_once, c10_init_reply_first, '
+             'c10_early_request_rejected / c10_late_init_rejected (no job, no call, no line; handler only) (Props/C10.v). The real servers run under the deterministic scheduler on generated sessions with the init request absent, once or several times at arbitrary positions, '
+             'back-to-back in one chunk or spread; every step is replayed through the model and the property text is the oracle (adapter call log with logical time, socket output, handler log).',
+        ref='6 C10',
+        note=SHELL_NOTE,
+        tech='Coq proof (inductive invariants and history monitors over a connection-level LTS) + scheduler-driven correspondence of the real servers + oracle'),
+    'C14': dict(
+        text='Coq theorems c14_enqueued_first (monitor rac_first: the first line ever enqueued is the credentials message, by the starting thread, never a second one), c14_nothing_can_precede (invariant: until then no reader, no job, no application handle), '
+             'c14_written_in_queue_order, c14_first_written, c14_exactly_once over Model/Shell.v for every interleaving and chunking (requests readable at connect time included), and c14_content for every credential configuration '
+             '(decodes to user iff configured, password iff configured, empty string as the empty token, enableClosePacket=true, SDK name; Props/C14.v). Server.start runs on a scheduled thread with request bytes already readable; '
+             'all interleavings of small sessions are enumerated (bounded-exhaustive) and larger ones sampled; the first written line is compared byte for byte with the model writer for generated credentials.',
+        ref='6 C14',
+        note=SHELL_NOTE,
+        tech='Coq proof (start-up invariant + monitors over a connection-level LTS; codec theorem for the content) + scheduler-driven correspondence + oracle'),
     'C04': dict(
         text='Coq theorems over the connection-level LTS Model/Shell.v (starter, reader, writer, n pool workers, application and adapter threads; any interleaving, chunking, adapter outcome, fault): '
              'c04_pool_discipline (monitor pool_ok: every job started once in FIFO order; a Metadata job = adapter calls, then EXACTLY ONE of its reply — with its own id — or one handler notification, then its end), '
-             'c04_reply_at_most_once, c04_all_jobs_end, c04_one_outcome_each, c04_isolated (Props/C04.v). The real MetadataProviderServer runs under the deterministic scheduler on generated sessions (all 14 methods, valid / wrong-typed / raising at the k-th adapter call, '
-             'malformed and unknown lines, pool None,-3,0,1,2,3, handler configurations, faults, blocked adapter calls); every step is replayed through the model (labels accepted, invariants and monitors along the trace, final state) and the property text is the oracle (reply count and status, adapter call sequence per request, handler count).',
+             'c04_reply_at_most_once, c04_all_jobs_end, c04_one_outcome_each, c04_isolated; content of the job over Model/MetaHandlers.v (the fourteen _on_* handlers as interaction scripts): c04_calls (the adapter calls are the interface table of the request, each once, in order, cut only by a raising call), c04_data_reply, c04_error_reply, c04_decoded_arguments (end to end with the request codec, for every well-formed encoded request and every script of adapter outcomes), c04_rejected_no_call (Props/C04.v). The real MetadataProviderServer runs under the deterministic scheduler on generated sessions (all 14 methods, valid / wrong-typed / raising at the k-th adapter call, '
+             'malformed and unknown lines, pool None,-3,0,1,2,3, handler configurations, faults, blocked adapter calls); every step is replayed through the model (labels accepted, invariants and monitors along the trace, final state) and the property text is the oracle (reply count and status, adapter calls per request, handler count); handler content: generated requests with per-call outcomes (right-typed / wrong-typed returns, 24 exception classes) through the real server vs Model.MetaHandlers.handle_tokens (calls with arguments, reply line / handler / silent).',
         ref='6 C04',
         note=SHELL_NOTE,
         tech='Coq proof (inductive invariants and history monitors over a connection-level LTS) + scheduler-driven correspondence of the real server + oracle'),
